@@ -11,7 +11,7 @@ ID = 'C15'
 TITLE = 'Chemical and glycan formulas survive a write/parse round trip and add linearly'
 RULE = ('case = composition over all symbols of the bundled table, isotope-prefixed keys, D/T and e/p/n with integer counts in '
         '[-200,500] or decimals with <= 4 places x separator x hill_order (plus a second composition for additivity); glycan '
-        'part: multisets of the 27 monosaccharides (names and synonyms), counts in [-5,20]; non-trivial = >= 3 keys incl. an '
+        'part: multisets of the 27 monosaccharides (names and synonyms), counts in [-5,20], plus every ordered pair of names exhaustively; non-trivial = >= 3 keys incl. an '
         'isotope or particle or a two-letter element sharing its first letter with another key')
 ASSUMPTIONS = [
     'reference masses come from pv/refchem.py (literals + own chem.txt reader); monoisotopic = most abundant isotope',
@@ -326,9 +326,25 @@ def glycan_strategy():
                                                      unique_by=lambda t: t[0]).map(lambda xs: [list(x) for x in xs])})
 
 
+def glycan_pair_cases():
+    """every ordered pair of monosaccharide names / synonyms x small counts: reaches every place where a name, its count and the
+    start of the next name together spell a longer name (Neu 5 Ac...)"""
+    names = sorted(_glycan_names())
+    counts = (1, 2, 5, 12, -1, 2.5)
+    for a in names:
+        for b in names:
+            if a == b:
+                continue
+            for ca in counts:
+                for cb in (1, 3):
+                    yield {'glycan': [[a, ca], [b, cb]]}
+
+
 def parts(tier):
     n = 8000 if tier == 'quick' else 400000
     return [
+        Part(name='glycan-pairs', kind='enum', check_case=check_glycan, cases=glycan_pair_cases, exhaustive=True, shards=16,
+             space='every ordered pair of the 47 monosaccharide names and synonyms x first count in {1,2,5,12,-1,2.5} x second count in {1,3}'),
         Part(name='chem', kind='hyp', check_case=check_chem, strategy=chem_strategy, examples=n),
         Part(name='glycan', kind='hyp', check_case=check_glycan, strategy=glycan_strategy, examples=n // 2),
     ]
